@@ -184,85 +184,117 @@ func (a *c05) checkStopCase() {
 		"after taking the stop request (Stop's send has completed, Stop may have returned) the scheduler still "+why)
 }
 
+// caseFlow: a flow whose state bits are set when the scheduler takes a
+// request from channel field f (entry of that select case) and that the rule
+// clears; the requirement is that no bit is left when the scheduler waits again.
+func (a *c05) caseFlow(cs *c05Case, bits int, clear func(in ssa.Instruction, g int) int, skip ...func(call *ssa.Call) bool) *c05Flow {
+	f := &c05Flow{a: a, G: 4}
+	first := cs.body.Instrs[0]
+	f.Step = func(in ssa.Instruction, g int) (int, bool) {
+		if in == first {
+			g |= bits
+		}
+		if call, ok := in.(*ssa.Call); ok {
+			for _, sk := range skip {
+				if sk(call) {
+					return clear(in, g), true // the callee is not applied to this request
+				}
+			}
+		}
+		return clear(in, g), false
+	}
+	f.Run(nil)
+	return f
+}
+
 func (a *c05) checkRemoveCase() {
 	r := a.r
 	cs := a.schedCase(a.fRemove)
 	if cs == nil || cs.body == nil {
-		r.Undecide("C05.S5: the scheduler no longer has a select case receiving from Cron.remove (anchor lost)")
+		r.Undecide("C05.S5: the scheduler no longer has a select case receiving from the removal channel (anchor lost)")
 		return
 	}
-	fn := cs.fn
-	construct := a.name(fn) + " remove case"
-	storesEntries := a.mayStore(a.fEntries)
-	var removers []*ssa.Call
-	ff := &FlagFlow{Fn: fn, Must: true,
-		Transfer: func(in ssa.Instruction, st uint64) uint64 {
-			switch x := in.(type) {
-			case *ssa.Call:
-				if cal := staticCallee(x); cal != nil && storesEntries[cal] && cs.recv != nil {
-					for _, arg := range x.Call.Args {
-						if arg == cs.recv {
-							removers = append(removers, x)
-							return st | 1
+	construct := "scheduler: removal request applied before waiting again"
+	f := a.caseFlow(cs, 1, func(in ssa.Instruction, g int) int {
+		if st, ok := in.(*ssa.Store); ok {
+			if _, ok := c05FieldAddr(st.Addr, a.fEntries); ok {
+				return g &^ 1
+			}
+		}
+		return g
+	}, func(call *ssa.Call) bool {
+		// a remover called directly by the loop with an id other than the received one
+		h := staticCallee(call)
+		if h == nil || call.Parent() != cs.fn || cs.recv == nil || !a.mayStore(a.fEntries)[h] {
+			return false
+		}
+		takesID, passes := false, false
+		for k, arg := range call.Call.Args {
+			if k < len(h.Params) && a.idType != nil && types.Identical(h.Params[k].Type(), a.idType) {
+				takesID = true
+				if arg == cs.recv {
+					passes = true
+				}
+			}
+		}
+		return takesID && !passes
+	})
+	ok, reached := f.All(cs.sel, func(g int) bool { return g&1 == 0 })
+	r.Check(ok && reached, "C05.S5-remove-applied", construct, a.pos(cs.body.Instrs[0]),
+		"every path from taking a removal request back to the wait rewrites Cron.entries first (in the loop or in a helper it calls)",
+		"the scheduler takes a removal request and goes back to waiting without having rewritten Cron.entries on some path: Remove has returned, yet the entry is started again at its next activation")
+	// the code that rewrites the list while a removal is pending keeps exactly the entries whose ID differs
+	seen := map[*ssa.Function]bool{}
+	for _, fn := range a.funcs {
+		allInstrs(fn, func(in ssa.Instruction) {
+			st, isSt := in.(*ssa.Store)
+			if !isSt || seen[fn] {
+				return
+			}
+			if _, isE := c05FieldAddr(st.Addr, a.fEntries); !isE {
+				return
+			}
+			pending := false
+			for _, g := range f.Globals(f.At(in)) {
+				if g&1 != 0 {
+					pending = true
+				}
+			}
+			if pending {
+				seen[fn] = true
+				a.checkRemover(fn, cs, func(x ssa.Instruction) bool {
+					for _, g := range f.Globals(f.At(x)) {
+						if g&1 != 0 {
+							return true
 						}
 					}
-				}
-			case *ssa.Store:
-				if _, ok := c05FieldAddr(x.Addr, a.fEntries); ok && cs.body.Dominates(in.Block()) {
-					return st | 1
-				}
+					return false
+				})
 			}
-			return st
-		}}
-	ff.Run()
-	ok, n := true, 0
-	for _, b := range fn.Blocks {
-		if !cs.body.Dominates(b) {
-			continue
-		}
-		out, vis := ff.Out(b)
-		if !vis {
-			continue
-		}
-		for _, s := range b.Succs {
-			if !cs.body.Dominates(s) {
-				n++
-				if out&1 == 0 {
-					ok = false
-				}
-			}
-		}
-	}
-	r.Check(ok && n > 0, "C05.S5-remove-applied", construct, a.pos(cs.body.Instrs[0]),
-		"every path from taking a removal request back to the wait removes the entry from Cron.entries first",
-		"the scheduler takes a removal request and goes back to waiting without having removed that id from Cron.entries on some path: Remove has returned, yet the entry is started again at its next activation")
-	// the remover keeps exactly the entries whose ID differs
-	seen := map[*ssa.Function]bool{}
-	for _, call := range removers {
-		g := staticCallee(call)
-		if seen[g] {
-			continue
-		}
-		seen[g] = true
-		idx := -1
-		for i, arg := range call.Call.Args {
-			if arg == cs.recv {
-				idx = i
-			}
-		}
-		a.checkRemover(g, idx)
+		})
 	}
 }
 
 // checkRemover: in g every element appended to the list stored into
 // Cron.entries is appended under ID != id (id = parameter idx).
-func (a *c05) checkRemover(g *ssa.Function, idx int) {
+func (a *c05) checkRemover(g *ssa.Function, cs *c05Case, isPending func(ssa.Instruction) bool) {
 	r := a.r
-	construct := a.name(g) + " keeps entries with a different ID"
-	if idx < 0 || idx >= len(g.Params) {
+	construct := "removal keeps only entries with a different ID"
+	// the id being removed: a parameter of the ID type, or the value received from the channel
+	ids := map[ssa.Value]bool{}
+	for _, pa := range g.Params {
+		if a.idType != nil && types.Identical(pa.Type(), a.idType) {
+			ids[pa] = true
+		}
+	}
+	if cs.recv != nil && cs.fn == g {
+		ids[cs.recv] = true
+	}
+	if len(ids) == 0 {
+		r.Note("C05.S5: %s rewrites Cron.entries for a removal but the id being removed is not a parameter/received value; filter condition not checked", a.name(g))
+		r.Trivial("C05.S5-remove-applied", construct, a.p.Pos(g.Pos()), "remover stores Cron.entries (filter not decoded)")
 		return
 	}
-	id := g.Params[idx]
 	nApp, why, unknown := 0, "", ""
 	var walk func(v ssa.Value, seen map[ssa.Value]bool)
 	walk = func(v ssa.Value, seen map[ssa.Value]bool) {
@@ -311,10 +343,10 @@ func (a *c05) checkRemover(g *ssa.Function, idx int) {
 							continue
 						}
 						l, rgt := cmp.X, cmp.Y
-						if l == id {
+						if ids[l] {
 							l, rgt = rgt, l
 						}
-						if rgt != id {
+						if !ids[rgt] {
 							continue
 						}
 						if X, ok := c05LoadOf(l, a.fID); ok && X == elem {
@@ -336,7 +368,7 @@ func (a *c05) checkRemover(g *ssa.Function, idx int) {
 		if !ok {
 			return
 		}
-		if _, ok := c05FieldAddr(st.Addr, a.fEntries); ok {
+		if _, ok := c05FieldAddr(st.Addr, a.fEntries); ok && isPending(in) {
 			nStores++
 			walk(st.Val, map[ssa.Value]bool{})
 		}
@@ -351,24 +383,29 @@ func (a *c05) checkRemover(g *ssa.Function, idx int) {
 		"the list written back to Cron.entries by the removal helper can still contain the entry being removed: "+why+" (the entry is started again after Remove returned)")
 }
 
-// freshAfter: v is a clock reading obtained after the select fired.
-func (a *c05) freshAfter(v ssa.Value, sel *ssa.Select, depth int) bool {
-	in, ok := v.(ssa.Instruction)
-	if !ok || depth > 6 {
-		return false
+// freshIn: v is a clock reading taken while the flow f is in a state
+// satisfying pending (i.e. after the request was taken), through phis,
+// location transforms, parameters and helper results.
+func (a *c05) freshIn(f *c05Flow, pending func(g int) bool, v ssa.Value, seen map[ssa.Value]bool) bool {
+	if seen[v] {
+		return true
 	}
-	b := in.Block()
-	if b == sel.Block() {
-		if instrIndex(in) <= instrIndex(sel) {
-			return false
-		}
-	} else if !sel.Block().Dominates(b) {
-		return false
-	}
+	seen[v] = true
 	switch x := v.(type) {
 	case *ssa.Phi:
 		for _, ed := range x.Edges {
-			if !a.freshAfter(ed, sel, depth+1) {
+			if !a.freshIn(f, pending, ed, seen) {
+				return false
+			}
+		}
+		return true
+	case *ssa.Parameter:
+		acts := a.actualsOf(x)
+		if acts == nil {
+			return false
+		}
+		for _, av := range acts {
+			if !a.freshIn(f, pending, av, seen) {
 				return false
 			}
 		}
@@ -376,86 +413,92 @@ func (a *c05) freshAfter(v ssa.Value, sel *ssa.Select, depth int) bool {
 	case *ssa.Call:
 		for _, n := range []string{"In", "UTC", "Local"} {
 			if c05IsTimeMethod(x, n) {
-				return a.freshAfter(x.Call.Args[0], sel, depth+1)
+				return a.freshIn(f, pending, x.Call.Args[0], seen)
+			}
+		}
+		if rets := a.returnsOf(x, 0); rets != nil && x.Call.Signature().Results().Len() == 1 {
+			// a helper such as now(): its own reading happens when it is called
+			if !a.clockDerived(v) {
+				return false
+			}
+			ok, reached := f.All(x, pending)
+			return ok && reached
+		}
+	case *ssa.Extract:
+		if call, ok := x.Tuple.(*ssa.Call); ok {
+			if rets := a.returnsOf(call, x.Index); rets != nil {
+				if !a.clockDerived(v) {
+					return false
+				}
+				ok, reached := f.All(call, pending)
+				return ok && reached
 			}
 		}
 	}
-	return a.clockDerived(v)
+	in, ok := v.(ssa.Instruction)
+	if !ok || !a.clockDerived(v) {
+		return false
+	}
+	okAll, reached := f.All(in, pending)
+	return okAll && reached
 }
 
 func (a *c05) checkAddCase() {
 	r := a.r
 	cs := a.schedCase(a.fAdd)
-	if cs == nil || cs.body == nil || cs.recv == nil {
-		r.Undecide("C05.S7: the scheduler no longer has a select case receiving an entry from Cron.add (anchor lost)")
+	if cs == nil || cs.body == nil {
+		r.Undecide("C05.S7: the scheduler no longer has a select case receiving an entry from the add channel (anchor lost)")
 		return
 	}
-	fn := cs.fn
-	storesEntries := a.mayStore(a.fEntries)
+	// phase 1: which instructions execute only between taking an entry and waiting again
+	p1 := a.caseFlow(cs, 1, func(in ssa.Instruction, g int) int {
+		if in == ssa.Instruction(cs.sel) {
+			return 0
+		}
+		return g
+	})
+	pend := func(g int) bool { return g&1 != 0 }
 	whyNext := "no store to the new entry's Next"
-	ff := &FlagFlow{Fn: fn, Must: true,
-		Transfer: func(in ssa.Instruction, st uint64) uint64 {
-			switch x := in.(type) {
-			case *ssa.Store:
-				if X, ok := c05FieldAddr(x.Addr, a.fNext); ok && X == cs.recv {
-					proper, _, why := a.properNext(x.Val, cs.recv)
-					if proper {
-						if call := x.Val.(*ssa.Call); a.freshAfter(call.Call.Args[0], cs.sel, 0) {
-							return st | 1
-						}
-						why = "the clock reading given to Schedule.Next was taken before the scheduler waited (stale)"
-					}
-					whyNext = "store at " + a.pos(in) + ": " + why
-					return st &^ 1
+	// phase 2: bit 1 = Next still to be computed, bit 2 = still to be appended
+	f := a.caseFlow(cs, 3, func(in ssa.Instruction, g int) int {
+		st, ok := in.(*ssa.Store)
+		if !ok {
+			return g
+		}
+		if X, ok := c05FieldAddr(st.Addr, a.fNext); ok && g&1 != 0 && a.isReceived(X, cs, 0) {
+			proper, _, why := a.properNext(st.Val, X)
+			if proper {
+				if call := st.Val.(*ssa.Call); a.freshIn(p1, pend, call.Call.Args[0], map[ssa.Value]bool{}) {
+					return g &^ 1
 				}
-				if _, ok := c05FieldAddr(x.Addr, a.fEntries); ok && a.appendContains(x.Val, cs.recv) {
-					return st | 2
-				}
-			case *ssa.Call:
-				if cal := staticCallee(x); cal != nil && storesEntries[cal] {
-					for _, arg := range x.Call.Args {
-						if arg == cs.recv {
-							return st | 2
-						}
-					}
-				}
+				why = "the clock reading given to Schedule.Next was taken before the scheduler waited (stale)"
 			}
-			return st
-		}}
-	ff.Run()
-	okN, okA, n := true, true, 0
-	for _, b := range fn.Blocks {
-		if !cs.body.Dominates(b) {
-			continue
+			if ok, reached := p1.All(in, pend); ok && reached {
+				whyNext = "store at " + a.pos(in) + ": " + why
+			}
+			return g
 		}
-		out, vis := ff.Out(b)
-		if !vis {
-			continue
-		}
-		for _, s := range b.Succs {
-			if !cs.body.Dominates(s) {
-				n++
-				if out&1 == 0 {
-					okN = false
-				}
-				if out&2 == 0 {
-					okA = false
-				}
+		if _, ok := c05FieldAddr(st.Addr, a.fEntries); ok {
+			if call, isCall := st.Val.(*ssa.Call); isCall && builtinName(call) == "append" && a.appendsReceived(call, cs) {
+				return g &^ 2
 			}
 		}
-	}
-	r.Check(okN && n > 0, "C05.S7-add-case", a.name(fn)+" add case: Next of the new entry", a.pos(cs.body.Instrs[0]),
-		"an entry added while running gets Next = its own Schedule.Next(clock reading taken after the wait)",
+		return g
+	})
+	okN, reached := f.All(cs.sel, func(g int) bool { return g&1 == 0 })
+	okA, _ := f.All(cs.sel, func(g int) bool { return g&2 == 0 })
+	r.Check(okN && reached, "C05.S7-add-case", "scheduler: Next of an entry added while running", a.pos(cs.body.Instrs[0]),
+		"an entry added while running gets Next = its own Schedule.Next(clock reading taken after the wait) before the scheduler waits again",
 		"an entry added while the scheduler runs does not get its first activation from its own schedule and the current time ("+whyNext+"): it is never started, or is started for an instant that passed before it was added")
-	r.Check(okA && n > 0, "C05.S7-add-case", a.name(fn)+" add case: entry appended", a.pos(cs.body.Instrs[0]),
-		"the received entry is appended to Cron.entries on every path",
+	r.Check(okA && reached, "C05.S7-add-case", "scheduler: entry added while running is appended", a.pos(cs.body.Instrs[0]),
+		"the received entry is appended to Cron.entries on every path before the scheduler waits again",
 		"an entry handed to the running scheduler is not added to Cron.entries on some path: Schedule returned an id but the job never starts")
 }
 
 func (a *c05) checkRendezvous() {
 	r := a.r
 	for _, f := range []FieldID{a.fStop, a.fRemove, a.fAdd} {
-		construct := f.String() + " is a rendezvous channel"
+		construct := "the " + a.roleOf(f) + " channel is a rendezvous channel"
 		n, why, unknown, pos := 0, "", "", ""
 		for _, fn := range a.p.Funcs {
 			allInstrs(fn, func(in ssa.Instruction) {
@@ -509,4 +552,51 @@ func (a *c05) checkRendezvous() {
 			"unbuffered: the API call returns only once the scheduler goroutine has received the request",
 			f.String()+" is "+why+": "+what)
 	}
+}
+
+// isReceived: X denotes the value the scheduler received in case cs: the
+// received value itself, or a parameter bound to it at every call site.
+func (a *c05) isReceived(X ssa.Value, cs *c05Case, depth int) bool {
+	if cs.recv != nil && X == cs.recv {
+		return true
+	}
+	par, ok := X.(*ssa.Parameter)
+	if !ok || depth > 4 {
+		return false
+	}
+	acts := a.actualsOf(par)
+	if len(acts) == 0 {
+		return false
+	}
+	for _, av := range acts {
+		if !a.isReceived(av, cs, depth+1) {
+			return false
+		}
+	}
+	return true
+}
+
+// appendsReceived: the append call adds the received entry.
+func (a *c05) appendsReceived(call *ssa.Call, cs *c05Case) bool {
+	if len(call.Call.Args) != 2 {
+		return false
+	}
+	sl, ok := call.Call.Args[1].(*ssa.Slice)
+	if !ok {
+		return false
+	}
+	arr, ok := sl.X.(*ssa.Alloc)
+	if !ok {
+		return false
+	}
+	for _, rr := range refs(arr) {
+		if ia, ok := rr.(*ssa.IndexAddr); ok {
+			for _, r2 := range refs(ia) {
+				if st, ok := r2.(*ssa.Store); ok && a.isReceived(st.Val, cs, 0) {
+					return true
+				}
+			}
+		}
+	}
+	return false
 }
